@@ -18,6 +18,36 @@ Lemma tail_start_mk ts r' cnt' idx' w :
   tail_start (mk_ts ts r' cnt' idx') w = if r_tail_bid r' =? b_id w then r_tail_off r' else 0.
 Proof. reflexivity. Qed.
 
+(* a tail position recorded by the parser lies behind at least one entry *)
+Lemma parse_range_tailpos c (Hh : 0 < c_hdr c) maxb pi : forall es pos p,
+  (ps_saw_tail p = true -> 0 < ps_tail_off p) ->
+  ps_saw_tail (parse_range c maxb pi es pos p) = true -> 0 < ps_tail_off (parse_range c maxb pi es pos p).
+Proof.
+  induction es as [|e r IH]; intros pos p Hp; cbn [parse_range]; [exact Hp|].
+  destruct (c_max_entries c <=? ps_n p); [exact Hp|].
+  destruct (pi_end pi <? pos + c_hdr c); [exact Hp|].
+  destruct (pi_end pi <? pos + need c e); [exact Hp|].
+  destruct ((maxb <? N.min usize_max (ps_total p + e_len e)) && negb (ps_n p =? 0)); [exact Hp|].
+  apply IH. cbn [ps_saw_tail ps_tail_off]. pose proof (need_pos c e Hh). destruct (pi_tail pi).
+  - intros _. lia.
+  - rewrite orb_false_r. exact Hp.
+Qed.
+
+Lemma parse_plan_tailpos c (Hh : 0 < c_hdr c) maxb : forall plan p,
+  (ps_saw_tail p = true -> 0 < ps_tail_off p) ->
+  ps_saw_tail (parse_plan c maxb plan p) = true -> 0 < ps_tail_off (parse_plan c maxb plan p).
+Proof.
+  induction plan as [|it rest IH]; intros p Hp; cbn [parse_plan]; [exact Hp|].
+  destruct ((c_max_entries c <=? ps_n p) || ps_stop p); [exact Hp|].
+  apply IH. now apply parse_range_tailpos.
+Qed.
+
+Lemma okoff_pos_nonempty c es off : okoff c es off -> 0 < off -> es <> [].
+Proof. intros Hok Hpos ->. unfold okoff in Hok. cbn in Hok. lia. Qed.
+
+Lemma ents_from_cons_nonempty c es off e r : ents_from c es off = e :: r -> es <> [].
+Proof. intros H ->. discriminate. Qed.
+
 Lemma read_next_spec_idx c s t ck nid : cfg_ok c ->
   TInv c nid (get_ts s (t_id t)) ->
   let ts := get_ts s (t_id t) in
@@ -152,22 +182,22 @@ Proof.
       assert (Hwid : 0 < b_id w < nid).
       { eapply Forall_forall in Hids; [exact Hids|]. apply in_or_app. right. unfold w_list. rewrite Ew. left. reflexivity. }
       (* the provisional persist changes only the index and the ALO counter *)
-      set (pr := if ck && (start =? 0)
+      set (pr := if ck && (start =? 0) && (0 <? b_used w)
                  then let '(r', p) := should_persist Strict (set_cur r1 i 0) true in
                       (r', if p then persist ts true (b_id w) start else ts)
                  else (set_cur r1 i 0, ts)).
       assert (Hr4 : r_chain (fst pr) = r_chain r1 /\ r_idx (fst pr) = i /\ r_off (fst pr) = 0 /\
                     r_tail_bid (fst pr) = r_tail_bid r1 /\ r_tail_off (fst pr) = r_tail_off r1 /\ r_hydrated (fst pr) = true).
-      { unfold pr. destruct (ck && (start =? 0)).
+      { unfold pr. destruct (ck && (start =? 0) && (0 <? b_used w)).
         - pose proof (should_persist_fields Strict (set_cur r1 i 0) true) as Hsp.
           destruct (should_persist Strict (set_cur r1 i 0) true) as [r' p]. cbn [fst]. cbn in Hsp. destruct Hsp as (G1 & G2 & G3 & G4 & G5 & G6).
           repeat split; auto. now rewrite G6.
         - cbn. repeat split; auto. }
       assert (Hts1 : ts_writer (snd pr) = Some w /\ ts_poisoned (snd pr) = false /\ ts_unmodelled (snd pr) = false /\
                      ts_count (snd pr) = ts_count ts /\ (ts_reader (snd pr) = ts_reader ts) /\
-                     ts_index (snd pr) = (if ck && (start =? 0)
+                     ts_index (snd pr) = (if ck && (start =? 0) && (0 <? b_used w)
                                           then Some {| p_tail := true; p_a := b_id w; p_off := start |} else ts_index ts)).
-      { unfold pr. cbn [should_persist]. destruct (ck && (start =? 0)); cbn; repeat split; auto. }
+      { unfold pr. cbn [should_persist]. destruct (ck && (start =? 0) && (0 <? b_used w)); cbn; repeat split; auto. }
       fold pr. destruct pr as [r4 ts1]. cbn [fst snd] in Hr4, Hts1.
       destruct Hr4 as (G1 & G2 & G3 & G4 & G5 & G6). destruct Hts1 as (T1 & T2 & T3 & T4 & T5 & T6).
       destruct (start <? b_used w) eqn:Elt.
@@ -205,7 +235,8 @@ Proof.
            ++ exact Hur.
            ++ right. eexists. split; [reflexivity|]. unfold PosIs. cbn [p_tail p_a p_off]. exists w.
               rewrite reader_of_mk, chain_of_mk, tail_start_mk, F1, F2, F4, F5, G1, G2, E1, N.eqb_refl.
-              split; [cbn; now rewrite Ew|]. split; [reflexivity|]. split; [exact Hilen|reflexivity].
+              split; [cbn; now rewrite Ew|]. split; [reflexivity|]. split; [exact Hilen|]. split; [reflexivity|].
+              eapply ents_from_cons_nonempty; exact Eef.
         -- (* peek *)
            cbn [andb] in *.
            exists (mk_ts ts r4 (ts_count ts) (ts_index ts1)), (REntry (out_of e)).
@@ -250,10 +281,11 @@ Proof.
         -- rewrite reader_of_mk. exact G6.
         -- reflexivity.
         -- exact Hur.
-        -- destruct (ck && (start =? 0)) eqn:Eck; rewrite ?Eck in T6.
+        -- destruct (ck && (start =? 0) && (0 <? b_used w)) eqn:Eck; rewrite ?Eck in T6.
            ++ right. eexists. split; [cbn [mk_ts ts_index]; exact T6|]. unfold PosIs. cbn [p_tail p_a p_off]. exists w.
               rewrite reader_of_mk, chain_of_mk, tail_start_mk, G1, G2, G4, G5, E1, E4, E5.
-              split; [cbn; now rewrite Ew|]. split; [reflexivity|]. split; [exact Hilen|reflexivity].
+              split; [cbn; now rewrite Ew|]. split; [reflexivity|]. split; [exact Hilen|]. split; [reflexivity|].
+              intros Hwnil. rewrite Hwnil in Hwu. cbn [sum_need] in Hwu. lia.
            ++ left. split; [cbn [mk_ts ts_index]; exact T6|exact Hur].
     + (* no writer yet *)
       assert (Hunread : unread c ts = []).
@@ -443,7 +475,8 @@ Proof.
     unfold PosIs, ts'. cbn [p_tail p_a p_off]. exists wb.
     rewrite reader_of_mk, chain_of_mk, tail_start_mk. cbn [set_tail set_cur r_idx r_chain r_tail_bid r_tail_off].
     rewrite R1, Hid, N.eqb_refl.
-    split; [exact Hwb|]. split; [reflexivity|]. split; reflexivity. }
+    split; [exact Hwb|]. split; [reflexivity|]. split; [reflexivity|]. split; [reflexivity|].
+    eapply okoff_pos_nonempty; [exact Hokt|]. unfold p. apply (parse_plan_tailpos c Hh); [intros Hf; discriminate Hf|exact Esaw]. }
   assert (Hsealed_case : forall r' ix', r_chain r' = chain -> r_tail_bid r' = r_tail_bid (reader_of ts) ->
             r_tail_off r' = r_tail_off (reader_of ts) -> r_hydrated r' = true -> (0 < j)%nat -> ps_saw_tail p = false ->
             let ts' := mk_ts ts (set_cur r' (ps_fin_idx p) (ps_fin_off p)) (Some (cnt ts - N.of_nat j)) ix' in
